@@ -71,6 +71,11 @@ def Standard : Syntax → Prop
 
 instance : DecidablePred Standard := fun s => by unfold Standard; cases s <;> infer_instance
 
+/-- "the allocation failed": the initial MALLOC failed, or one of the first `n` REALLOCs did
+    (`n` = number of REALLOC calls `dynamic_encoder_cb` made during the run) -/
+def AllocFailed (mallocOk : Bool) (allocOk : Nat → Bool) (n : Nat) : Prop :=
+  mallocOk = false ∨ ∃ i, i < n ∧ allocOk i = false
+
 /-- smallest `b * 2^j` (j ≥ 0) that is `> t`, by doubling; fuel-free via well-founded recursion -/
 def minDouble (b t : Nat) : Nat :=
   if _h0 : b = 0 then 0 else if _h : b ≤ t then minDouble (2 * b) t else b
